@@ -15,9 +15,13 @@ NAME_SCHEMES = {
     "sorted": lambda names: list(names),
     "reversed": lambda names: [f"z{len(names) - i}_{nm}" for i, nm in enumerate(names)],  # sort order reversed
     "mixed": lambda names: [("Xx_" if i % 2 else "_g") + nm.lower() + ("_" if i % 2 else "9") for i, nm in enumerate(names)],
+    # names that contain the Petri-net place prefixes themselves
+    "markers": lambda names: [("q" if i % 2 else "") + f"b{i % 2}_" + nm.lower() + f"_b{(i + 1) % 2}_x" for i, nm in enumerate(names)],
 }
 STYLES = ["dnf", "cnf", "bdd", "redundant"]
 FORMATS = ["bnet", "aeon", "sbml"]
+# "api:<perm>": the network is declared through AEON's API with its variables in the given (unsorted) order - the text
+# parsers always sort the variables by name, so this is the only way to exercise "reordering their declarations"
 NASTY = ["a[", "a]", "a_", "_a_", "a{b}", "a.b", "A", "a"]
 
 
@@ -123,9 +127,36 @@ def judge(net, sd_bfs, sd_build, back):
     return out
 
 
+def permute_net(net, perm):
+    """the same network with its variables declared in the order perm (perm[k] = old index of the k-th declared variable)"""
+    names = [net.names[i] for i in perm]
+    pos = {old: k for k, old in enumerate(perm)}
+    tabs = []
+    for k, old in enumerate(perm):
+        t = 0
+        for s2 in range(net.N):
+            s = 0
+            for j in range(net.n):
+                if (s2 >> pos[j]) & 1:
+                    s |= 1 << j
+            if net.f(old, s):
+                t |= 1 << s2
+        tabs.append(t)
+    return Net(names, tabs)
+
+
 def run_presentation(net, flips, scheme, style, fmt):
     from biobalm import SuccessionDiagram
     tnet, back = transform(net, flips, scheme)
+    if fmt.startswith("api:"):
+        from ..drv import bn_api
+        perm = [int(c) for c in fmt[4:]]
+        pn = permute_net(tnet, perm)
+        sd1 = SuccessionDiagram(bn_api(pn))
+        sd1.expand_bfs()
+        sd2 = SuccessionDiagram(bn_api(pn))
+        sd2.build()
+        return judge(net, sd1, sd2, back)
     text = text_of(tnet, style, fmt)
     sd1 = SuccessionDiagram.from_rules(text, format=fmt)
     sd1.expand_bfs()
@@ -217,12 +248,12 @@ def _reindex(net, rn, new):
 def plan(tier, seed):
     units = []
     unis = {}
-    u2 = [("idx", 2, i) for i in range(256)]
-    unis["U2 full group"] = len(u2)
+    u2 = [("idx", 2, i) for i in (U.U2c_indices() if tier == "quick" else range(256))]
+    unis["U2c full group" if tier == "quick" else "U2 full group"] = len(u2)
     for ch in U.chunks(u2, 4):
         units.append(("group", ch))
-    gens = [("k", k) for k, n in U.kernel().items() if n.n <= 5] + [("idx", 3, i) for i in U.shard(U.catalogue("multi"), seed, 4 if tier == "quick" else 1)]
-    gens += [("idx", 3, i) for i in U.shard(U.F3_indices(True), seed, 16 if tier == "quick" else 2)]
+    gens = [("k", k) for k, n in U.kernel().items() if n.n <= 5] + [("idx", 3, i) for i in U.shard(U.catalogue("multi"), seed, 8 if tier == "quick" else 1)]
+    gens += [("idx", 3, i) for i in U.shard(U.F3_indices(True), seed, 32 if tier == "quick" else 2)]
     gens += [("idx", 3, i) for i in U.shard(U.catalogue("maa"), seed, 1024 if tier == "quick" else 64)]
     unis["generators (K, MULTI3, F3c, MAA3 shards)"] = len(gens)
     for ch in U.chunks(gens, 10):
@@ -235,9 +266,10 @@ def plan(tier, seed):
         units.append(("sanitize", ch))
     return {
         "units": units, "universes": unis,
-        "bounds": {"full group (n=2)": "3 name schemes (incl. one that reverses the sort order) x 4 negation patterns x 4 formula styles "
-                   "(minterm DNF, maxterm CNF, BDD to_expression, redundant/absorbed clauses) x 3 formats (bnet, aeon, sbml)",
-                   "generators (n>=3)": "each name scheme, each single-variable negation, each style, each format, one at a time",
+        "bounds": {"full group (n=2)": "4 name schemes (incl. one that reverses the sort order and one whose names contain the Petri-net "
+                   "place prefixes b0_/b1_) x 4 negation patterns x (4 formula styles (minterm DNF, maxterm CNF, BDD to_expression, "
+                   "redundant/absorbed clauses) x 3 formats (bnet, aeon, sbml) + every declaration order through the API)",
+                   "generators (n>=3)": "each name scheme, each declaration order (all 6 for n=3), each single-variable negation, each style, each format, one at a time",
                    "sanitization": "all ordered tuples of 2 / 3 names from the pool " + str(NASTY)},
         "rule": "library results on the transformed presentation (full diagram, minimal trap spaces, attractor seeds after build) are "
                 "mapped back through the transformation and compared with the reference model of the original network; non-trivial = "
@@ -249,6 +281,8 @@ def plan(tier, seed):
 
 def presentations(net, full):
     n = net.n
+    perms = ["".join(map(str, p)) for p in itertools.permutations(range(n))] if n <= 3 else \
+            ["".join(map(str, reversed(range(n)))), "".join(map(str, list(range(1, n)) + [0]))]
     if full:
         for scheme in NAME_SCHEMES:
             for k in range(n + 1):
@@ -256,9 +290,13 @@ def presentations(net, full):
                     for style in STYLES:
                         for fmt in FORMATS:
                             yield (flips, scheme, style, fmt)
+                    for pm in perms:
+                        yield (flips, scheme, "dnf", "api:" + pm)
     else:
         yield ((), "sorted", "dnf", "bnet")
-        for scheme in ("reversed", "mixed"):
+        for pm in perms:
+            yield ((), "sorted", "dnf", "api:" + pm)
+        for scheme in ("reversed", "mixed", "markers"):
             yield ((), scheme, "dnf", "bnet")
         for i in range(n):
             yield ((i,), "sorted", "dnf", "bnet")
